@@ -255,5 +255,5 @@ def _shard(arg):
 
 
 def run(ctx):
-    n = 8000 if ctx.quick else 120000
+    n = 8000 if ctx.quick else 400000
     ctx.pmap(_shard, [(ASYNC[k % 4], ctx.seed * 1000 + k, n // 16) for k in range(16)])
